@@ -282,7 +282,7 @@ def _oracle(ctx, search, env):
         plan = [(fn, [(n, i, j, t)], True) for fn in _files(ctx)
                 for (n, i, j) in F.all_targets(*F.classic_dims(F.read_lines(os.path.join(par, fn)))) for t in F.VALID[n]] + \
                [p for p in plan if not p[2] or len(p[1]) > 1]
-    projects, lines, pairs, others = {}, [], [], []
+    projects, lines, pairs, others, sweep_base = {}, [], [], [], []
     full = set(_files(ctx)[:3])
     soak = bool(os.environ.get("VERIF_SOAK")) or search      # VERIF_SOAK=1: whole runs for every row (not a registered tier)
     for k, (fn, entries, valid) in enumerate(plan):
@@ -331,7 +331,54 @@ def _oracle(ctx, search, env):
             else:
                 b_, yb = bi, (byi if with_yaml else None)
             pairs.append((fn + ":" + kind, key, "", valid, a, b_, ya, yb, bi))
+    # CONFIGURATION SWEEP: override vs edited file for one target crop, with ONE configuration key away from the project's own
+    sweep_n = 0
+    fn0 = _files(ctx)[0]
+    dims0 = _dims(par)[fn0]
+    S = F.base_project(rnd, crops=((dims0[2], dims0[3]), (dims0[2], dims0[3])), years=(1980, 1981 if not ctx.thorough else 1982))
+    F.sweep_endit(S)
+    ser = F.read_weather_csv(os.path.join(env.ex, "weather", "historical", "109_120.csv"), 1980, S.end.year)
+    wke = F.render_weather(env.ex, "swo_we", 0, "X", ser, et0=True)
+    wke["WeatherFolder"] = '"swo_we"'
+    for nm, cfgw in (("swoa", None), ("swoe", wke)):
+        F.write_project(env, nm, S, cfg=cfgw)
+        F.sweep_ready(env, nm, S)
+    lines00 = F.read_lines(os.path.join(par, fn0))
+    doc00 = yaml.safe_load(open(os.path.join(par, fn0 + ".yml"), encoding="utf-8"))
+    sw_rows = ([([("MAXAMAX", 0, 0, "37.5")], True)] if ctx.thorough else []) + [([("TSUM", 1, 0, "90"), ("KC", 2, 0, "1.3"), ("PRO", 1, 1, "0.35"), ("VELOC", 0, 0, "0.35")], True),
+               ([("WUMAXPF", 0, 0, "7.5"), ("TSUM", 2, 0, "0")], False)]
+    sw_pf = []
+    for q, (entries, valid) in enumerate(sw_rows):
+        if valid:
+            ed, doc = _edits(lines00, doc00, entries)
+            sw_pf.append(F.param_folder(env, "pswo%d" % q, {fn0: b"\n".join(ed) + b"\n",
+                                                           fn0 + ".yml": yaml.safe_dump(doc, sort_keys=False, allow_unicode=True).encode()}))
+        else:
+            sw_pf.append(None)
+    for iname, extra, et0 in [("own configuration", "", False)] + F.sweep_items(ctx.thorough):
+        nm, fc = ("swoe", "X") if et0 else ("swoa", "109_120")
+        bi = len(lines); lines.append(F.line_for(nm, S, fcode=fc, extra=extra))
+        byi = len(lines); lines.append(F.line_for(nm, S, fcode=fc, extra=extra + " CropParameterFormat=yml"))
+        for q, (entries, valid) in enumerate(sw_rows):
+            key = _label(entries)
+            a = len(lines); lines.append(F.line_for(nm, S, fcode=fc, extra="%s CropFile=%s %s" % (extra, fn0, key)))
+            ya = len(lines); lines.append(F.line_for(nm, S, fcode=fc, extra="%s CropParameterFormat=yml CropFile=%s.yml %s" % (extra, fn0, key)))
+            if valid:
+                b_ = len(lines); lines.append(F.line_for(nm, S, fcode=fc, extra="%s parameter=%s" % (extra, sw_pf[q])))
+                yb = len(lines); lines.append(F.line_for(nm, S, fcode=fc, extra="%s CropParameterFormat=yml parameter=%s" % (extra, sw_pf[q])))
+            else:
+                b_, yb = bi, byi
+            pairs.append(("%s:sweep[%s]" % (fn0, iname), key, "", valid, a, b_, ya, yb, bi))
+            sweep_n += 2
+        sweep_base.append((iname, bi, byi))
+    ctx.extra["configuration_sweep"] = ("%d pairs: override on the line vs edit in the file (classic and YAML; a base parameter, a set of stage/organ "
+                                        "parameters, a set rejected as a whole) for %s under the project's own configuration and under %d settings with one "
+                                        "key changed (%s)" % (sweep_n, fn0, len(F.sweep_items(ctx.thorough)), ", ".join(i_[0] for i_ in F.sweep_items(ctx.thorough))))
     runs = F.run_lines(env, "C18", lines, timeout=1800)
+    for iname, bi, byi in sweep_base:
+        for x in (bi, byi):
+            if runs[x].err:
+                fails.append(Fail(key=("sweep-run-error:tillage-postponed-under-AutoHarvest:%s" if "before harvest" in runs[x].err else "sweep-run-error:%s") % iname, what="a run with one configuration key changed (%s) fails: %s" % (iname, runs[x].err), line=runs[x].line))
     effective = both_failed = 0
     for fn, pr in projects.items():
         for (name, P, kind, pne, bi, byi, pex) in pr[0]:
